@@ -37,6 +37,9 @@ class Check(AddCheck):
         yield from gens.merge_cases_other()
         yield from gens.merge_cases_bad_timing_payload()
         yield from gens.merge_cases_padded()
+        yield from gens.merge_cases_special_ids()
+        from checks.c03 import metadata_cases
+        yield from metadata_cases(rng)
         for ro, doc, meta in kth_bad_cases():
             yield {'ro': ro, 'msg': to_text(doc), 'meta': meta}
         n_hist = 100 if tier == 'quick' else 1000
@@ -69,6 +72,7 @@ class Check(AddCheck):
     def run(self, tier, rng, log):
         corpus = corpus_cases(self.pid, 'add')
         cases = corpus + list(self.gen(tier, rng))
+        cases += list(gens.fuzzed_cases(cases, rng, 1500 if tier == 'quick' else 15000))      # structural neighbours (gens.mutate_doc)
         dis, vio, sigs, dist, samples, n, guarded = [], [], set(), {}, [], 0, 0
         for i in range(0, len(cases), self.chunk):
             part = cases[i:i + self.chunk]
